@@ -161,6 +161,16 @@ def ep_cart(request, cookie, tok=None):
     return Response('cart|%s|%s' % (','.join(cart), rid(request)), headers={'X-Sim-Route': 'cart'})
 
 
+def ep_keep(request, cookie, tok=None):
+    cookie['seen'] = rid(request)          # stores something: the cookie is saved with this response
+    return Response('keep|%s' % rid(request), headers={'X-Sim-Route': 'keep'})
+
+
+def ep_logout(request, cookie, tok=None):
+    cookie.set_expires()                   # ends THIS visitor's session
+    return Response('logout|%s' % rid(request), headers={'X-Sim-Route': 'logout'})
+
+
 def ep_nonresp(request, tok=None):
     return 'not-a-response-%s' % rid(request)
 
@@ -185,6 +195,7 @@ def build(cfg):
         mws.append(EpTokMW())
     if cfg.get('rendermw', True):
         mws.append(RenderMW())
+    cart_mw = SignedCookieMiddleware(secret_key=CART_KEY)      # one instance serving three routes
     sub = Application([('/echo/<name>', ep_sub)], resources={'sub_res': 'subres'},
                       middlewares=[SubMW()])
     routes = [
@@ -201,7 +212,9 @@ def build(cfg):
         ('/doc', ep_doc),
         ('/boom', ep_boom),
         ('/go', Redirector('/hi/there', code=302)),
-        Route('/cart', ep_cart, middlewares=[SignedCookieMiddleware(secret_key=CART_KEY)]),
+        Route('/cart', ep_cart, middlewares=[cart_mw]),
+        Route('/keep', ep_keep, middlewares=[cart_mw]),
+        Route('/logout', ep_logout, middlewares=[cart_mw]),
         ('/dir/', ep_dir),
         ('/br/<x>/', ep_br),
         ('/ret409', ep_ret409),
